@@ -20,13 +20,14 @@
   Proofs: `Lemmas/G3DumpLemmas.lean`, `Lemmas/G3DumpFloats.lean`.
   Round 10: `C19_block_diagonal_adequate`; `Env.InputOK (dumpOf …)` derived from the decidable input predicate
   `DistinctRoles` (`C19_dump_input_ok`); distance and zenith angle in the one-step theorem by first-order exactness
-  (`C19_first_order_network_is_linear`; round 13: the horizontal angle too, `Env.InputOK` unconditional).  Still open: a joint ℝ witness
-  of the composite theorems (no C01 witness has the shape of a `dumpOf`, see notes/reports/C19.md round 10).
+  (`C19_first_order_network_is_linear`; round 13: the horizontal angle too, `Env.InputOK` unconditional).  Joint ℝ witness: `C19_witness_consistent_reproduced`,
+  `C19_witness_same_adjustment` (two height records of one point, `Lemmas/G3DumpWitness.lean`; gso evaluated over ℝ).
 -/
 import Gama.Lemmas.G3DumpLemmas
 import Gama.Lemmas.G3DumpFloats
 import Gama.Lemmas.G3DumpInput
 import Gama.Lemmas.G3FirstOrder
+import Gama.Lemmas.G3DumpWitness
 import Gama.Props.C19
 namespace Gama.Props.C19
 open Gama Gama.Neu Gama.G3Book Gama.G3Lin Gama.G3Net Gama.G3Dump Gama.Ls Gama.LS Gama.Ls.AdjM
@@ -330,5 +331,43 @@ example : ∀ d, d ≠ 0 → 0 < d ⬝ᵥ (Ex.PCS ℝ) *ᵥ d :=
 example : ∃ Ad bd, homogenise (Ex.pCS ℝ) = .ok (Ad, bd) := by
   obtain ⟨a, h, -⟩ := Ex.pCS_adj_gso
   exact C19_full_answer_homogenised .gso (by decide) (Ex.pCS ℝ) a h
+
+/-! ### joint witness over ℝ (`Lemmas/G3DumpWitness.lean`) -/
+
+open Gama.G3Dump.W in
+/-- **`C19_g3_consistent_network_reproduced` applied to a concrete g3 network, every hypothesis discharged, the solver
+    run evaluated over ℝ.**  One point (n, e fixed, u free; H = 5, geoid 1), two `height` records observing 4 in one cluster
+    with unit covariance, `apriori_sd = 1`.  `dumpOfR` evaluates to the explicit problem `wP` (2 equations, 1 column, rows
+    `[(1,1)]`, block `⟨2,0,[1,1]⟩`, rhs 0, no `minx` list: `w_dump`); the block Cholesky accepts the cofactors
+    (`w_homogenise`), the weight matrix is `1`, `RankGap` / `SingGap` hold at `τ = 1/2` for the one-column system
+    (`ones_gapAll`, `ones_singGap`), both records are `ConsistentAt` (`w_consistent`), and `Adj` + gso — the transliterated
+    Gram–Schmidt run over ℝ, tested norm `√2` — answers (`w_adj_gso`).  The theorem then gives `x = 0`, `r = 0`, `[pvv] = 0`. -/
+theorem C19_witness_consistent_reproduced :
+    ∃ a, adjSolve .gso (dumpOfR wNet 1 wCls) = .ok a ∧ a.x = #[0] ∧
+      toVec (bookOf wNet (nobsOf wCls)).idx.cols a.x = 0 ∧
+      toVec (netEqsR wNet (nobsOf wCls)).length a.r = 0 ∧ a.rtr = 0 := by
+  obtain ⟨P, hP, hR, hS, ⟨Ad, bd, hh⟩, a, ha, hx⟩ := w_facts (dumpOfR wNet 1 wCls) w_dump
+  rw [dump_A wNet 1 wCls (dump_rowsOK' wNet 1 wCls), dump_S] at hR
+  rw [dump_A wNet 1 wCls (dump_rowsOK' wNet 1 wCls)] at hS
+  have h := C19_g3_consistent_network_reproduced wNet 1 wCls P hP gapThresholds_half
+    (le_trans Svd.wTol_le (by norm_num)) hR hS Ad bd hh w_consistent .gso a ha
+  exact ⟨a, ha, hx, h.1, h.2.1, h.2.2.1⟩
+
+open Gama.G3Dump.W in
+/-- **`C19_g3_same_adjustment` applied to the same network**: whatever ANY of the four algorithms answers on gama-g3's
+    input for it equals what `Adj` + gso (evaluated: `x = (0)`) answers — unknowns, residuals and `[pvv]`.  All hypotheses
+    of the theorem are discharged; the only premise left is that the other algorithm answers. -/
+theorem C19_witness_same_adjustment (alg : Alg) (a' : Answer ℝ)
+    (hs' : adjSolve alg (dumpOfR wNet 1 wCls) = .ok a') :
+    ∃ a, adjSolve .gso (dumpOfR wNet 1 wCls) = .ok a ∧ a.x = #[0] ∧
+      toVec (bookOf wNet (nobsOf wCls)).idx.cols a'.x = toVec (bookOf wNet (nobsOf wCls)).idx.cols a.x ∧
+      toVec (netEqsR wNet (nobsOf wCls)).length a'.r = toVec (netEqsR wNet (nobsOf wCls)).length a.r ∧
+      a'.rtr = a.rtr := by
+  obtain ⟨P, hP, hR, hS, ⟨Ad, bd, hh⟩, a, ha, hx⟩ := w_facts (dumpOfR wNet 1 wCls) w_dump
+  rw [dump_A wNet 1 wCls (dump_rowsOK' wNet 1 wCls), dump_S] at hR
+  rw [dump_A wNet 1 wCls (dump_rowsOK' wNet 1 wCls)] at hS
+  have h := C19_g3_same_adjustment wNet 1 wCls P hP gapThresholds_half
+    (le_trans Svd.wTol_le (by norm_num)) hR hS Ad bd hh alg .gso a' a hs' ha
+  exact ⟨a, ha, hx, h⟩
 
 end Gama.Props.C19
